@@ -140,4 +140,11 @@ Definition c02_check (tr : trace) : list (nat * N * nat * bool) :=
   let skip := not_judged tr in
   filter (fun f => negb (nmem (snd (fst f)) skip)) (rev (m_fail (mon_run mon0 0 tr))).
 
+(** Streamed responses (no Content-Length, body in parts): the client may receive a truncated body only when a drain cut the
+    request off at or after its deadline.  [truncated] = the requests whose body the harness' client found incomplete. *)
+Definition c02_trunc_bad (tr : trace) (truncated : list nat) : list nat :=
+  let m := mon_run mon0 0 tr in
+  let skip := not_judged tr in
+  filter (fun r => negb (nmem r (m_cut m)) && negb (nmem r skip)) truncated.
+
 Definition c02_ok (tr : trace) : bool := match c02_check tr with [] => true | _ => false end.
